@@ -311,4 +311,154 @@ def check_C05(run):
     settle_break(run)
 
 
-CHECKS = {"C05": check_C05}
+# ------------------------------------------------------------------ whole-lexer properties
+
+
+def correspond(run, exe, ins, variants, T, oracle=None, stream="lexer"):
+    """model vs implementation, byte for byte, per build variant. A difference is first examined
+    with the property's oracle on that input; only if the oracle accepts it, it is kept as a
+    broken correspondence (reported with no-failing-input-found unless another input fails)."""
+    import corr
+    results = {}
+    for variant in variants:
+        profile = "release" if variant.startswith("release") else "debug"
+        sep = variant.endswith("-sep")
+        icases = impl.run_lex(variant, ins, mode="lexa")
+        results[variant] = icases
+        if exe is None:
+            continue
+        mcases = corr.run_model(exe, ins, profile=profile, sep=sep, mode="lexa")
+        diffs = corr.compare(mcases, icases)
+        run.cov.setdefault("correspondence", {})[variant] = {"inputs": len(ins), "differences": len(diffs)}
+        run.cov["traces_validated_against_impl"] = run.cov.get("traces_validated_against_impl", 0) + len(ins) - len(diffs)
+        run.cov["disagreements_checked"] = run.cov.get("disagreements_checked", 0) + len(diffs)
+        flags = collections.Counter()
+        for m in mcases:
+            g = corr.ghost(m)
+            for k in ("lines_ok", "err_ok", "wf"):
+                if g and g.get(k) != "true":
+                    flags[k] += 1
+            if g and g.get("debt") != "false":
+                flags["debt"] += 1
+            if g:
+                run.cov["max_rollbacks"] = max(run.cov.get("max_rollbacks", 0), int(g.get("rollbacks", 0)))
+                run.cov["max_mode_stack"] = max(run.cov.get("max_mode_stack", 0), int(g.get("maxmodes", 0)))
+        if flags:
+            run.cov.setdefault("monitor_flags_false", {})[variant] = dict(flags)
+        if diffs:
+            shown = 0
+            for idx, a, b in diffs:
+                c = icases[idx]
+                bad = []
+                if oracle and c.src is not None and c.outcome == "ok":
+                    try:
+                        bad = oracle(O.Ctx(c, T))
+                    except Exception as ex:
+                        bad = [f"oracle exception {ex!r}"]
+                if bad:
+                    continue  # reported by run_oracle with the shrunk input
+                shown += 1
+                if shown <= 3:
+                    run.cov.setdefault("correspondence_examples", []).append({"input": ins[idx][:200], "model": a, "impl": b})
+            if not getattr(run, "pending_break", None):
+                idx, a, b = min(diffs, key=lambda d: len(ins[d[0]]))
+                run.pending_break = ("correspondence", f"[{variant}/{stream}] model and implementation differ on {len(diffs)} of {len(ins)} inputs; first: input {ins[idx][:120]!r}: model {a!r} vs impl {b!r}")
+    return results
+
+
+def monitor_violations(run, exe, ins, which, message):
+    """ghost monitor flags of the model run (premises of the conditional generic theorems)"""
+    import corr
+    if exe is None:
+        return
+    mcases = corr.run_model(exe, ins, profile="debug", sep=False, mode="lex")
+    n = 0
+    for m in mcases:
+        g = corr.ghost(m)
+        if g and any(g.get(k) != v for k, v in which.items()):
+            n += 1
+            if n <= 2:
+                run.pending_break = getattr(run, "pending_break", None) or ("premise", f"{message} on input {m.src[:120]!r}")
+    run.cov["premise_checked_on"] = run.cov.get("premise_checked_on", 0) + len(mcases)
+    run.cov["premise_failures"] = run.cov.get("premise_failures", 0) + n
+
+
+def lexer_check(run, module, oracle, n_quick, n_thorough, variants=("debug", "release"), extra_inputs=None,
+                need_ok=True, premise=None, rule=""):
+    rng = Rng(run.seed).fork(run.prop)
+    coq_part(run, module)
+    try:
+        exe = coqbuild.build_model()
+    except CoqFailure as e:
+        exe = None
+        run.pending_break = ("model-build", e.detail[:600])
+    T = impl.tables("debug")
+    n = tier_n(run, n_quick, n_thorough)
+    ins, tags = base_inputs(run, rng, n, n // 3, n // 4)
+    ins += gen.context_exhaustive(3 if run.tier == "thorough" else 2, rng.fork("ctx"))
+    if run.tier != "thorough":
+        ins += gen.context_exhaustive(3, rng.fork("ctx3"), limit=n)
+    if extra_inputs:
+        x = extra_inputs(rng, run)
+        ins += x
+    if run.tier == "thorough":
+        ins += gen.exhaustive_small(gen.TRIGGER_ALPHABET, 3)
+        for f in gen.sample_files():
+            ins += gen.truncations(f, max(1, len(f) // 400))
+    results = correspond(run, exe, ins, variants, T, oracle)
+    for variant, cases in results.items():
+        run_oracle(run, cases, T, oracle, "lexer", variant, need_ok=need_ok)
+    if premise:
+        monitor_violations(run, exe, ins, premise[0], premise[1])
+    run.sample({"source": ins[len(ins) // 3]})
+    run.sample({"source": ins[-1][:200]})
+    run.cov["rule"] = rule or ("regression corpus, sampled test-suite strings, fragment concatenations (1-8 of %d trigger fragments), unicode/line-break "
+                               "stress, macro-free open code; every input lexed by the implementation (each listed build) and by the extracted Coq model "
+                               "and compared byte for byte, then judged by the property's direct oracle; distinct = token-type bigrams and error kinds reached" % len(gen.FR))
+    settle_break(run)
+    return results
+
+
+def check_C03(run):
+    lexer_check(run, "C03", O.c03, 3000, 80000)
+    run.assumptions += ["source length below 2^32 bytes (u32 offsets are modelled as unbounded N)",
+                        "the theorem is about the Gallina model; handlers reach the state only through the modelled primitives"]
+
+
+def check_C02(run):
+    lexer_check(run, "C02", O.c02, 3000, 80000, premise=({"wf": "true"}, "the buffer of the model run is not well-formed (premise of C02_accessors_succeed)"))
+    run.assumptions += ["C02_sorted_* are conditional on the debug-profile run returning (C01); first-token-after-BOM and single-EOF are tested by the oracle on every input, not proved",
+                        "source length below 2^32 bytes"]
+
+
+def check_C19(run):
+    """model part: C19 theorems; run-time part: all builds byte-identical, threads, repeated calls"""
+    res = lexer_check(run, "C19", lambda cx: [], 3000, 60000, variants=("debug", "release", "debug-sep", "release-sep"), need_ok=False)
+    # (1) debug vs release dumps identical (per feature setting)
+    for a, b in (("debug", "release"), ("debug-sep", "release-sep")):
+        n = 0
+        for ca, cb in zip(res[a], res[b]):
+            if not O.same_dump(ca, cb):
+                n += 1
+                if n <= 3:
+                    run.violation("oracle", f"{a} and {b} builds return different results", src=ca.src, extra={"a": ca.text[:40], "b": cb.text[:40]})
+        run.cov.setdefault("profile_pairs", {})[f"{a}/{b}"] = {"inputs": len(res[a]), "different": n}
+    # (2) concurrency and call history: 16 threads, shuffled orders, vs sequential
+    ins = [c.src for c in res["release"] if c.src is not None][: tier_n(run, 3000, 40000)]
+    for variant in ("release", "debug"):
+        out = impl.run_threads(variant, ins, 16)
+        m = re.search(r"THREADS n=(\d+) cases=(\d+) mismatches=(\d+)", out)
+        if not m:
+            run.violation("harness", "threads run produced no summary", found_input=False)
+            continue
+        run.cov.setdefault("threads", {})[variant] = {"threads": int(m.group(1)), "cases": int(m.group(2)), "mismatches": int(m.group(3))}
+        run.count(f"threads:{variant}", int(m.group(2)) * 17)
+        for ln in out.split("\n"):
+            if ln.startswith("MISMATCH"):
+                hx = ln.split()[2]
+                run.violation("oracle", f"[{variant}] result differs when lexed concurrently / after other inputs", src=bytes.fromhex(hx).decode("utf-8", "replace"))
+    run.assumptions += ["thread scheduling, allocator, toolchain channel and optimisation level are outside the model: covered by run-time comparison only (partial)",
+                        "Cursor::advance_by's two cfg!(debug_assertions) branches are modelled by one function (they differ only in prev_char bookkeeping)"]
+
+
+CHECKS = {"C05": check_C05, "C03": check_C03, "C02": check_C02, "C19": check_C19}
